@@ -188,7 +188,7 @@ def run_populations(ctx):
                 "close, double flush, abandoned writers), (c) every public operation against 20 hostile on-disk states "
                 "(bucket/content path is a directory, dangling symlink, symlink loop, empty, NUL-only, 1 MiB line, "
                 "100k-deep JSON; index-v5/content-v2/tmp/cache root is a regular file; stray files; non-UTF-8 file "
-                "names), (d) hostile keys incl. 64 KiB and NUL/control characters through every operation, (e) the linker option "
+                "names; every kind of foreign index record as a key's newest record), (d) hostile keys incl. 64 KiB and NUL/control characters through every operation, (e) the linker option "
                 "space (link_to through every entry point, declared sizes on both sides of the target's up to 2^64-1, "
                 "partial reads, read_to_end, commit / drop). Oracle: "
                 "no {panic}, no background-thread panic, no process death, no hang (>=10 s CPU or 3 reproducible "
@@ -293,6 +293,26 @@ def run_populations(ctx):
             judge(ctx, f"hostile state {state}", mode, {"op": "clear", "cache": cache}, r, state)
             ctx.rm(base)
         ctx.count("hostile_states")
+    # ---------------- (c2) every kind of foreign record (correct line checksum, content another tool might write) as
+    # the newest record of a key, through every operation
+    for fk in c12.FOREIGN_RECORDS:
+        for mode in modes:
+            base = ctx.new_dir(f"f-{fk}-{mode.replace('@', '-')}")
+            cache = os.path.join(base, "cache")
+            dest = os.path.join(base, "dest")
+            os.makedirs(dest)
+            key = "foreign-key"
+            w = ctx.call("sync@astd", {"op": "write", "cache": cache, "key": key, "data": ctx.data(b"foreign payload")})
+            with open(ref.bucket_path(cache, key), "ab") as f:
+                f.write(c12.foreign_record(fk, key))
+            sri = ref.sri("sha256", b"foreign payload")
+            for q in all_ops(ctx, cache, key, sri, dest, data=b"foreign payload") + [{"op": "clear", "cache": cache}]:
+                mm = "sync@" + mode.split("@")[1] if q["op"] in c12.SYNC_ONLY_OPS and mode.startswith("async") else mode
+                r = ctx.call(mm, q, timeout=20)
+                judge(ctx, f"foreign record {fk}", mm, q, r, fk)
+                ctx.case(distinct_key=("foreign", fk, q["op"], mm))
+            ctx.rm(base)
+        ctx.count("foreign_record_states")
     # ---------------- (d) hostile keys through every operation
     cache = ctx.new_cache()
     dest = ctx.new_dir("kdest")
